@@ -450,9 +450,6 @@ def check_wiring(rep, simmod, init, sites):
                             f'(second flip-flop output is inverted, all others copy), found {lut}', node=s.call)
             # a_ctrl row of the same line
             ok = norm(star.value).replace(' ', '') in (f'a_ctrl[{line}]', f'a_ctrl[{line}.index]', f'a_ctrl[{norm(o)}]')
-            rep.ob('C01.wiring', f'a_ctrl row of {line}', ok)
-            if not ok:
-                rep.violate('C13.actrl', simmod, init, s.tup, f'accumulation control row {norm(star.value)} is not that of the output line {line}', node=s.call)
             roles.append(('interface', pin, dff_true, dff_false))
             # None guard
             if not any(f'{line} is not None' in c for c in conds):
@@ -475,8 +472,6 @@ def check_wiring(rep, simmod, init, sites):
                 if not ok:
                     rep.violate('C01.wiring', simmod, init, s.tup, 'fork must emit one BUF1 per non-None output line (unless forks are stripped)', node=s.call)
                 ok = line is not None and norm(star.value).replace(' ', '') in (f'a_ctrl[{line}]', f'a_ctrl[{line}.index]')
-                if not ok:
-                    rep.violate('C13.actrl', simmod, init, s.tup, f'accumulation control row {norm(star.value)} is not that of the output line', node=s.call)
                 # the fork test must be on the case-folded kind
                 fk = [c for c in conds if "'__fork__'" in c]
                 if not fk:
@@ -489,8 +484,6 @@ def check_wiring(rep, simmod, init, sites):
                 if not ok:
                     rep.violate('C01.wiring', simmod, init, s.tup, f'regular op: column 1 ({oname}) must be outs[0] or the scratch slot tmp_idx (never the zero line)', node=s.call)
                 ok = norm(star.value).replace(' ', '') == f'a_ctrl[{oname}]'
-                if not ok:
-                    rep.violate('C13.actrl', simmod, init, s.tup, f'accumulation control row {norm(star.value)} is not that of the output line {oname}', node=s.call)
                 if not isinstance(s.lut, ast.Name):
                     raise ModelError('regular op LUT is not a variable')
             roles.append((role,))
